@@ -530,11 +530,9 @@ fn convert_array8_to_type(src: &Array8, lg_config_k: u8, target_type: HllType) -
                 }
             }
 
-            let src_est = src.estimate();
-            let arr6_est = array6.estimate();
-            if src_est > arr6_est {
-                array6.set_hip_accum(src_est);
-            }
+            // The converted copy answers exactly as the gadget does: same registers, same
+            // estimator state (HIP accumulator and out-of-order flag).
+            array6.set_estimator_state(src.hip_accum(), src.is_out_of_order());
 
             HllSketch::from_mode(lg_config_k, Mode::Array6(array6))
         }
@@ -548,11 +546,7 @@ fn convert_array8_to_type(src: &Array8, lg_config_k: u8, target_type: HllType) -
                 }
             }
 
-            let src_est = src.estimate();
-            let arr4_est = array4.estimate();
-            if src_est > arr4_est {
-                array4.set_hip_accum(src_est);
-            }
+            array4.set_estimator_state(src.hip_accum(), src.is_out_of_order());
 
             HllSketch::from_mode(lg_config_k, Mode::Array4(array4))
         }
